@@ -9,6 +9,7 @@ import dets
 import gen
 from common import Outcome, np, rng_for
 
+RULE_ADDENDA = ('17 500-35 000 stationary values then a shift with checkpoints (no data dropped without a reported drift); independent eps_cut; theorem witnesses replayed')
 LEVEL = "proof"
 SHRINK_KEYS = ("stream",)
 EXPLANATION = ("Theorems (Lean): variance merge/insert/delete identities, row bounds, width bookkeeping, drift iff data dropped. This run "
